@@ -24,6 +24,7 @@ harness("c08_symbols", "san", "pbt/c08_symbols.cc", link="-lrapidcheck")
 harness("geom_pbt", "san", "pbt/geom_pbt.cc", link="-lrapidcheck")
 harness("c13_corner_table", "san", "pbt/c13_corner_table.cc", link="-lrapidcheck")
 harness("prim_pbt", "san", "pbt/prim_pbt.cc", link="-lrapidcheck")
+harness("c11_metadata", "san", "pbt/c11_metadata.cc", link="-lrapidcheck")
 
 # ------------------------------------------------------------------------------------------------
 
@@ -167,11 +168,13 @@ def confirm_failures(prop, res):
         seen.add(path)
         fails = 0
         detail = ""
+        is_hang = "-hang-" in os.path.basename(path)
         for _ in range(3):
-            ok, out = replay_once(exe, mode, path)
-            if ok is False:
+            # a recorded hang is re-run alone with a limit far above any normal case (cases take milliseconds)
+            ok, out = replay_once(exe, mode, path, timeout=180 if is_hang else 900)
+            if ok is False or (ok is None and is_hang):
                 fails += 1
-                detail = out
+                detail = out if isinstance(out, str) else "timeout"
         if fails == 3:
             dst = os.path.join(REPLAY, os.path.basename(path))
             shutil.copy(path, dst)
@@ -341,7 +344,26 @@ def check_c17(tier):
                        "32/64-bit varints are boundary-biased samples, 8/16-bit ones exhaustive"])
 
 
+def check_simple(prop, hname, mode, tier, quick_cases, thorough_cases, required, assumptions):
+    t0 = time.time()
+    exe = ensure_built([hname])[hname]
+    res = Result()
+    run_shards(res, prop, hname, exe, mode, tier, 16, quick_cases if tier == "quick" else thorough_cases)
+    res.required_classes = required
+    return finish(prop, tier, res, t0, assumptions=assumptions)
+
+
+def check_c11(tier):
+    return check_simple("C11", "c11_metadata", "c11", tier, 1200, 25000,
+                        ["geometry_pc_sequential", "geometry_pc_kdtree", "geometry_mesh_sequential",
+                         "geometry_mesh_edgebreaker", "with_attribute_metadata", "encode_error_with_name_over_255",
+                         "depth_3", "depth_8"],
+                        ["the geometry carrying the metadata is a fixed 6-point mesh / point cloud: the metadata block is "
+                         "independent of the geometry payload"])
+
+
 CHECKS = {
+    "C11": check_c11,
     "C16": check_c16,
     "C17": check_c17,
     "C13": check_c13,
@@ -355,6 +377,7 @@ CHECKS = {
 
 REPLAYERS = {
     # property -> list of (harness, default mode)
+    "C11": [("c11_metadata", "c11")],
     "C13": [("c13_corner_table", "c13")],
     "C16": [("prim_pbt", "c16")],
     "C17": [("prim_pbt", "c17")],
